@@ -197,6 +197,9 @@ pub fn with_cache(b: HypercoreBuilder, cache: u8) -> HypercoreBuilder {
         1 => b.node_cache_options(hypercore::CacheOptionsBuilder::new()),
         // room for three nodes (one node weighs 76)
         2 => b.node_cache_options(hypercore::CacheOptionsBuilder::new().max_capacity(3 * 76)),
+        // room for one node / for thirteen nodes
+        3 => b.node_cache_options(hypercore::CacheOptionsBuilder::new().max_capacity(100)),
+        4 => b.node_cache_options(hypercore::CacheOptionsBuilder::new().max_capacity(1024)),
         _ => b,
     }
 }
